@@ -1,4 +1,178 @@
+/-
+  C06 - Indexing, slicing, +, * and join act like str and carry formatting along.
+
+  Statement level: `cells f` is the per-character view (character, attribute dict of its run);
+  `text f = (cells f).map fst` (`text_eq_cells`) and `len f = (cells f).length` (`cells_length`), so each
+  theorem below about `cells` gives the "same text as str", "len = number of characters" and
+  "every character keeps its formatting" clauses at once (C06_text / C06_len make that explicit).
+  Python's own slicing/indexing/repeat/join semantics are the independent definitions in Spec/PySlice.lean.
+
+  Hypotheses: none beyond the types. A slice step is rejected (C06_step). Plain-`str` operands of `+`
+  are not parsed by the library (`Chunk(other)`); for `join`, str items go through `fmtstr`, which is the
+  identity wrapping for ESC-free text (C17_plain) - the model's `join` takes the converted items.
+-/
 import Curtsies.Model.FmtStr
+import Curtsies.Spec.PySlice
+import Curtsies.Proofs.Slice
 namespace Curtsies
-theorem C06_placeholder : True := trivial
+open Spec
+
+theorem cells_emptyFmt : cells emptyFmt = [] := rfl
+
+private theorem take_drop_clamp (l : List α) (s e : Nat) :
+    (l.take e).drop s = (l.take (min e l.length)).drop (min s l.length) := by
+  by_cases he : e ≤ l.length
+  · by_cases hs : s ≤ l.length
+    · simp [Nat.min_eq_left he, Nat.min_eq_left hs]
+    · have h1 : min s l.length = l.length := by omega
+      rw [Nat.min_eq_left he, h1]
+      rw [List.drop_eq_nil_of_le (by rw [List.length_take]; omega)]
+      rw [List.drop_eq_nil_of_le (by rw [List.length_take]; omega)]
+  · have h1 : min e l.length = l.length := by omega
+    rw [h1, List.take_of_length_le (by omega), List.take_of_length_le (Nat.le_refl _)]
+    by_cases hs : s ≤ l.length
+    · simp [Nat.min_eq_left hs]
+    · have h2 : min s l.length = l.length := by omega
+      rw [h2, List.drop_eq_nil_of_le (by omega), List.drop_eq_nil_of_le (Nat.le_refl _)]
+
+private theorem bound_eq (L : Nat) (x : Option Int) (d : Nat) (hd : d ≤ L) :
+    min (Int.toNat (let v := x.getD (d : Int); if v < 0 then max 0 ((L : Int) + v) else v)) L
+      = sliceBound L x d := by
+  cases x with
+  | none => simp [sliceBound]; omega
+  | some v =>
+    simp only [Option.getD_some, sliceBound]
+    by_cases h : v < 0
+    · simp only [if_pos h]; omega
+    · simp only [if_neg h]; try omega
+
+private theorem getslice_cells (f : FmtStr) (s e : Nat) :
+    cells (getslice f s e) = ((cells f).take e).drop s := by
+  have := getitemLoop_cells s e f 0
+  simp only [Nat.sub_zero] at this
+  unfold getslice
+  simp only []
+  by_cases h : (getitemLoop s e 0 f).isEmpty
+  · rw [if_pos h, cells_emptyFmt, ← this]
+    have : getitemLoop s e 0 f = [] := List.isEmpty_iff.mp h
+    rw [this]; rfl
+  · rw [if_neg h, this]
+
+private theorem normalizeSlice_int (L : Nat) (i : Int) :
+    normalizeSlice L (.int i) =
+      if 0 ≤ i ∧ i < L then .ok (i.toNat, i.toNat + 1)
+      else if i < 0 ∧ -(L:Int) ≤ i then .ok (((L:Int) + i).toNat, ((L:Int) + i).toNat + 1)
+      else .error .indexError := by
+  unfold normalizeSlice
+  simp only []
+  grind
+
+private theorem take_succ_drop (l : List α) (k : Nat) (h : k < l.length) :
+    (l.take (k+1)).drop k = [l[k]] := by
+  induction l generalizing k with
+  | nil => simp at h
+  | cons x xs ih =>
+    cases k with
+    | zero => simp
+    | succ k => simp at h ⊢; exact ih k (by omega)
+
+private theorem getitem_ok (f : FmtStr) (idx : Index) (s e : Nat)
+    (h : normalizeSlice (len f) idx = .ok (s, e)) : getitem f idx = .ok (getslice f s e) := by
+  simp [getitem, h, bind, Except.bind, getslice, pure, Except.pure]
+
+/-- Slicing: for every FmtStr and every pair of bounds (negative, None, past the end, empty ranges),
+    `f[a:b]` succeeds and its cells are Python's slice of the cells of `f`. -/
+theorem C06_slice (f : FmtStr) (a b : Option Int) :
+    ∃ r, getitem f (.slice a b false) = .ok r ∧ cells r = pySlice (cells f) a b := by
+  refine ⟨_, getitem_ok f _ _ _ (by simp [normalizeSlice]; exact ⟨rfl, rfl⟩), ?_⟩
+  have hL : (cells f).length = len f := cells_length f
+  rw [getslice_cells, take_drop_clamp, pySlice, hL]
+  have e1 := bound_eq (len f) a 0 (Nat.zero_le _)
+  have e2 := bound_eq (len f) b (len f) (Nat.le_refl _)
+  simp only [Int.natCast_zero] at e1
+  simp only [] at e1 e2
+  rw [← e1, ← e2]
+
+/-- Slicing with a step is not supported (outside the property; stated so that nothing is totalised). -/
+theorem C06_step (f : FmtStr) (a b : Option Int) :
+    getitem f (.slice a b true) = .error .notImplementedError := by
+  simp [getitem, normalizeSlice, bind, Except.bind]
+
+/-- Integer indexing: in range (negative indices included) gives exactly that one cell; out of range
+    raises IndexError, as `str` does. -/
+theorem C06_index (f : FmtStr) (i : Int) :
+    (match pyIndex (cells f) i with
+     | some c => ∃ r, getitem f (.int i) = .ok r ∧ cells r = [c]
+     | none => getitem f (.int i) = .error .indexError) := by
+  have hL : (cells f).length = len f := cells_length f
+  have hn := normalizeSlice_int (len f) i
+  unfold pyIndex
+  simp only [hL]
+  by_cases h1 : 0 ≤ i ∧ i < (len f : Int)
+  · rw [if_pos h1] at hn ⊢
+    have hk : i.toNat < (cells f).length := by omega
+    rw [List.getElem?_eq_getElem hk]
+    exact ⟨_, getitem_ok f _ _ _ hn, by rw [getslice_cells, take_succ_drop _ _ hk]⟩
+  · rw [if_neg h1] at hn ⊢
+    by_cases h2 : i < 0 ∧ -(len f : Int) ≤ i
+    · rw [if_pos h2] at hn ⊢
+      have hk : ((len f : Int) + i).toNat < (cells f).length := by omega
+      rw [List.getElem?_eq_getElem hk]
+      exact ⟨_, getitem_ok f _ _ _ hn, by rw [getslice_cells, take_succ_drop _ _ hk]⟩
+    · rw [if_neg h2] at hn ⊢
+      simp [getitem, hn, bind, Except.bind]
+
+/-- `f + g` -/
+theorem C06_add (f g : FmtStr) : cells (add f g) = cells f ++ cells g := by simp [add]
+/-- `f + "str"`: the str's characters are unformatted. -/
+theorem C06_add_str (f : FmtStr) (t : Text) : cells (addStr f t) = cells f ++ plainCells t := by
+  simp [addStr, plainCells, Chunk.cells]
+/-- `"str" + f` -/
+theorem C06_radd_str (f : FmtStr) (t : Text) : cells (raddStr f t) = plainCells t ++ cells f := by
+  simp [raddStr, plainCells, Chunk.cells]
+
+/-- `f * n` for every integer n (negative counts give the empty string). -/
+theorem C06_mul (f : FmtStr) (n : Int) : cells (mul f n) = pyRepeat (cells f) n := by
+  simp only [mul, pyRepeat]
+  induction n.toNat with
+  | zero => simp
+  | succ k ih => simp [List.replicate_succ, ih]
+
+/-- `sep.join(items)` -/
+theorem C06_join (sep : FmtStr) (items : List FmtStr) :
+    cells (join sep items) = pyJoin (cells sep) (items.map cells) := by
+  unfold join
+  cases items with
+  | nil => simp [joinLoop, pyJoin]
+  | cons x xs =>
+    simp only [joinLoop, List.nil_append]
+    induction xs generalizing x with
+    | nil => simp [joinLoop, pyJoin]
+    | cons y ys ih =>
+      have := ih y
+      simp only [List.map_cons, cells_append] at this
+      simp only [joinLoop, cells_append, List.map_cons, pyJoin, this, List.append_assoc]
+
+/-- The text of any FmtStr is the first components of its cells: a result whose cells are the str-operation
+    of the operands' cells has the text the str-operation gives on the operands' texts. -/
+theorem C06_text (f : FmtStr) : text f = (cells f).map Prod.fst := text_eq_cells f
+/-- `len()` is the number of characters. -/
+theorem C06_len (f : FmtStr) : len f = (cells f).length := (cells_length f).symm
+
+/-- The text of a slice is the str slice of the text (slicing commutes with `map fst`). -/
+theorem C06_slice_text (f : FmtStr) (a b : Option Int) :
+    ∃ r, getitem f (.slice a b false) = .ok r ∧ text r = pySlice (text f) a b ∧
+      len r = (pySlice (text f) a b).length := by
+  obtain ⟨r, h1, h2⟩ := C06_slice f a b
+  refine ⟨r, h1, ?_, ?_⟩
+  · rw [text_eq_cells, h2, text_eq_cells]
+    simp [pySlice, List.map_take, List.map_drop]
+  · rw [← cells_length, h2, text_eq_cells]
+    simp [pySlice]
+
+/-- Non-vacuity: a three-run string with an empty run, negative bounds. -/
+example : ∃ r, getitem [⟨['a','b'], {fg := some 1}⟩, ⟨[], {}⟩, ⟨['c','d'], {bold := some true}⟩]
+    (.slice (some (-3)) (some (-1)) false) = .ok r ∧
+    cells r = [('b', {fg := some 1}), ('c', {bold := some true})] := ⟨_, rfl, by decide⟩
+
 end Curtsies
